@@ -174,25 +174,6 @@ Proof.
   - apply IH; assumption.
 Qed.
 
-Lemma max_fold_ge : forall (nm : names) acc,
-  acc <= fold_left (fun m (e : nkey * str) => N.max m (fst (fst e))) nm acc.
-Proof.
-  induction nm as [|e nm IH]; intro acc; cbn [fold_left]; [lia|].
-  eapply N.le_trans; [|apply IH]. lia.
-Qed.
-
-Lemma max_fold_in : forall (nm : names) acc k s, In (k, s) nm ->
-  fst k <= fold_left (fun m (e : nkey * str) => N.max m (fst (fst e))) nm acc.
-Proof.
-  induction nm as [|e nm IH]; intros acc k s H; [contradiction|]. cbn [fold_left].
-  destruct H as [H|H].
-  - subst e. cbn [fst]. eapply N.le_trans; [|apply max_fold_ge]. lia.
-  - apply IH with s. exact H.
-Qed.
-
-Lemma max_name_id_ge : forall nm k s, In (k, s) nm -> fst k <= max_name_id nm.
-Proof. intros nm k s H. unfold max_name_id. apply max_fold_in with s. exact H. Qed.
-
 Definition fid (e : frec) : N := let '(_, _, _, i) := fst e in i.
 
 (* the ids remap_name_ids can move without saturating *)
@@ -249,8 +230,8 @@ Lemma remap_shape : forall first recs r, 256 < first ->
   remap first recs r =
     (map (adj_rec (first - 256)) recs,
      {| r_adj := map (adjust_id (first - 256)) (r_adj r);
-        r_size := r_size r;
-        r_elided := option_map (fun id => sat_add16 id (first - 256)) (r_elided r);
+        r_size := map (adjust_id (first - 256)) (r_size r);
+        r_elided := option_map (adjust_id (first - 256)) (r_elided r);
         r_all := r_all r |}).
 Proof.
   intros first recs r H. unfold remap. destruct (N.eqb_spec (first - 256) 0); [lia|]. reflexivity.
@@ -266,13 +247,15 @@ Lemma remap_merge_sound : forall fin recs r,
   let out := merge_records fin (Some recs') in
   (forall p e l id s, In ((p, e, l, id), s) recs -> In ((p, e, l, adjust_id off id), s) out)
   /\ (forall k s, In (k, s) fin -> 256 <= fst k -> In ((3, snd k, 0x409, fst k), s) out)
-  /\ r_adj r' = map (adjust_id off) (r_adj r).
+  /\ r_adj r' = map (adjust_id off) (r_adj r)
+  /\ r_size r' = map (adjust_id off) (r_size r)
+  /\ r_elided r' = option_map (adjust_id off) (r_elided r).
 Proof.
   intros fin recs r HM off ND MV recs' r' out. subst recs' r' out.
   rewrite remap_shape by lia.
   replace (max_name_id fin + 1 - 256) with off by (subst off; lia).
-  cbn [fst snd r_adj]. unfold merge_records. fold (fmerge (map (adj_rec off) recs) (ir_records fin)).
-  split; [|split; [|reflexivity]].
+  cbn [fst snd r_adj r_size r_elided]. unfold merge_records. fold (fmerge (map (adj_rec off) recs) (ir_records fin)).
+  split; [|split; [|repeat split; reflexivity]].
   - intros p e l id s H. apply fmerge_in.
     + apply adj_keys_nodup; assumption.
     + apply in_map_iff. exists ((p, e, l, id), s). split; [reflexivity|exact H].
